@@ -11,6 +11,9 @@ CONSTANTS
   Admit <- AdmitAll
   Borns = {"wire", "msg"}
   Answers = {"cache", "tail"}
+  Transports = {"any"}
+  Ports = {"eph"}
+  SentinelSrcs <- NoSrcs
 INIT Init
 NEXT Next
 INVARIANTS TypeOK GateAhead DeniedTouchesNothing AllowedIsServed FirstMatchingView InternalSkipsClientPolicy UnparsableEntryIgnored
